@@ -49,6 +49,7 @@ func i64(v int64) *Term { return mkBV(64, uint64(v)) }
 func resetPathState(ex *Exec) {
 	opaqueReset()
 	ex.pathState = map[string]any{}
+	ex.modes = map[string]bool{}
 }
 
 // ---- harness API ----
@@ -125,6 +126,9 @@ func (ex *Exec) harnessCall(fr *frame, fn *ssa.Function, args []Value) Value {
 		return nil
 	case "verifMapOrder":
 		ex.mapOrder = ex.concreteInt(args[0].(*Term), "map order")
+		return nil
+	case "verifMode":
+		ex.modes[argStr(args[0])] = true
 		return nil
 	case "verifStub":
 		x.stubs[argStr(args[0])] = true
